@@ -163,7 +163,40 @@ CHECKS = {
     },
 }
 
+CHECKS["C06"] = {
+    "text": "The panic-capable constructs of the mmCIF lexer and parser and of the code they call are regenerated from the source on every run (T7) "
+            "and proved equal to a reviewed table in which every site has its guard stated. The executable reader model (lexer on fuel, parser, "
+            "post passes, gate) mirrors the repaired code; proved for every input: the lexer's loops consume input so its fuel never runs out "
+            "(termination), a lexer failure is a BreakingError and the reader always classifies, loop rows are as wide as the header and are the "
+            "values in order (the row[x] accesses), matrix indices taken from item names are below 3, unit-cell setters only see values they accept, "
+            "the uncertainty accumulator fits 32 bits. The compiled code is explored on prefixes, token-class replacements, structural faults, "
+            "multi-fault mutations and corpus samples under all options and levels, each read under a time limit, in two build profiles, and its "
+            "full outcome is compared with the model on every ASCII input.",
+    "design_ref": "DESIGN.md section 6 C06",
+    "note": "Absence of panics and termination of the compiled code are explored (about 18k inputs per quick run), not proved; the T7 table ties "
+            "the review to the source and the correspondence ties the model to the code. Trusted: Coq kernel, T7, extraction, harness.",
+    "technique": "Coq proof (termination of the lexer model, classification, row-grid and range lemmas) over a translator-regenerated panic-site inventory; fault-enumeration correspondence with the extracted reader model",
+}
+
+CHECKS["C02"] = {
+    "text": "An abstract mmCIF document (data block name, metadata items, atom_site rows, each value given by its meaning) has a specification "
+            "in Coq (Spec/CifSpec.v): models by number in first-appearance order, chains by author id (label id when absent), residues by author "
+            "number (label number when absent) and insertion code, conformers by name and alternate location, numbers as the correctly rounded "
+            "binary64 value of the decimal token, blank alternate locations redistributed, metadata from the cell / symmetry / matrix / NCS items. "
+            "The specification is a function of the document alone, so every layout has the same expected result. The reader model (lexer + parser, "
+            "shared with C06) is proved to take every legal spelling for its value (white space and comments skipped, quoted strings and text "
+            "fields give their content, trimmed on use), never to substitute a number, and to reject at every level once an InvalidatingError is "
+            "recorded. A grammar-directed writer renders each document in several layouts (column permutations and subsets, foreign columns, every "
+            "spelling, comments / blank lines / CRLF, foreign items, loops, text fields and save frames anywhere) and the crate's reader is compared "
+            "with the specification (property) and with the reader model (correspondence); single-token corruptions must be rejected.",
+    "design_ref": "DESIGN.md section 6 C02",
+    "note": "The refinement theorem read_cif (render doc) = denote doc is not proved: reader model and specification are compared on every "
+            "generated layout. Three recorded findings (numeric-looking identifiers re-spelled, quote inside a quoted string, residue number "
+            "defaulted) are reported as KNOWN-FINDING. Trusted: Coq kernel, extraction, harness generator, T2 translators for the symmetry and element tables.",
+    "technique": "Coq specification of the document + proved lexer/parser layout lemmas; grammar-directed differential correspondence of the crate against the extracted specification and reader model",
+}
+
 NOT_APPLICABLE = [
     {"property_id": p, "reason": PENDING}
-    for p in ["C02", "C03", "C04", "C06", "C15"]
+    for p in ["C03", "C04", "C15"]
 ]
